@@ -208,6 +208,57 @@ class Registries(object):
                 live.update(m)
 
 
+class ModuleState(object):
+    """Process-wide mutable module-level containers of the library (dicts / sets / short lists that are module globals):
+    snapshot at world creation, restored in place at teardown, so that one run never sees state another run left behind
+    (a run is one process, conceptually).  What had to be restored is reported: it is library state that outlives a call."""
+
+    _candidates = None
+
+    @classmethod
+    def candidates(cls):
+        if cls._candidates is None:
+            import sys
+            import types
+            out = []
+            seen = set()
+            for name, mod in sorted(sys.modules.items()):
+                if not (name == 'stix2' or name.startswith('stix2.')) or mod is None or '.test' in name:
+                    continue
+                for attr, obj in sorted(vars(mod).items()):
+                    if attr.startswith('__') or id(obj) in seen:
+                        continue
+                    if isinstance(obj, (dict, set)) or (isinstance(obj, list) and len(obj) < 2000):
+                        if isinstance(obj, types.ModuleType):
+                            continue
+                        seen.add(id(obj))
+                        out.append((name, attr, obj))
+            cls._candidates = out
+        return cls._candidates
+
+    def __init__(self):
+        self.saved = [(m, a, o, (dict(o) if isinstance(o, dict) else set(o) if isinstance(o, set) else list(o))) for m, a, o in self.candidates()]
+
+    def restore(self):
+        changed = []
+        for m, a, o, snap in self.saved:
+            try:
+                same = (o == snap)
+            except Exception:
+                same = False
+            if not same:
+                changed.append('%s.%s' % (m, a))
+                if isinstance(o, dict):
+                    o.clear()
+                    o.update(snap)
+                elif isinstance(o, set):
+                    o.clear()
+                    o.update(snap)
+                else:
+                    o[:] = snap
+        return changed
+
+
 # --------------------------------------------------------------------------
 # disk
 # --------------------------------------------------------------------------
